@@ -249,6 +249,21 @@ TABLE.update({
  "C14-V": ("models/generation", "go test -vet=off -count=1 -run TestC14V ./models/generation/"),
 })
 
+TABLE.update({
+ "C01-U": ("data", "go test -vet=off -count=1 -run TestC01U ./data/"),
+ "C01-V": ("data", "go test -vet=off -count=1 -run TestC01V ./data/"),
+ "C02-U": ("data", "go test -vet=off -count=1 -run TestC02UColumnToSeries ./data/"),
+ "C02-V": ("data/cdata", "go test -vet=off -count=1 -run TestC02VExtremeAtEnd ./data/cdata/"),
+ "C03-U": ("data/cdata", "go test -vet=off -count=1 -run TestDemoMinimumTieC03U ./data/cdata/"),
+ "C03-V": ("libopenwater", "go test -vet=off -count=1 -run TestDemoOutputRowLengthC03V ./libopenwater/"),
+ "C04-U": ("models/rr", "go test -vet=off -count=1 -run TestSacramentoRepeatable ./models/rr/"),
+ "C04-V": ("models/functions", "go test -vet=off -count=1 -run TestSumCBackedOutputs ./models/functions/"),
+ "C06-U": ("models/routing", "go test -vet=off -count=1 -run TestC06U ./models/routing/"),
+ "C06-V": ("models/rr", "go test -vet=off -count=1 -run TestC06V ./models/rr/"),
+ "C17-U": ("sim", "go test -vet=off -count=1 -run TestAnswersAfterFailedSetups ./sim/"),
+ "C17-V": ("sim", "go test -vet=off -count=1 -run TestLargestFinite ./sim/"),
+})
+
 def sh(cmd, cwd=WT):
     r = subprocess.run(cmd, shell=True, cwd=cwd, env=ENV, capture_output=True, text=True)
     return r.returncode, (r.stdout + r.stderr)[-1500:]
